@@ -33,8 +33,8 @@ ASSUMPTIONS = ['the remote driver passes the client descriptor like Acceptor._wo
 _F: Dict[Any, Any] = {}
 
 
-def flags_for(mode: str, unix: bool = False) -> Any:
-    key = (mode, unix, os.getpid())
+def flags_for(mode: str, unix: bool = False, events: bool = False) -> Any:
+    key = (mode, unix, events, os.getpid())
     if key not in _F:
         from vf.props import c04, c07
         argv = {'local': ['--threadless'], 'remote': ['--threadless', '--local-executor', '0'], 'threaded': ['--threaded']}[mode]
@@ -42,6 +42,8 @@ def flags_for(mode: str, unix: bool = False) -> Any:
             # the proxy listens on a unix socket (and possibly on extra TCP ports next to it): only the flag matters here,
             # the harness plays the acceptor
             argv += ['--unix-socket-path', os.path.join(c07.static_dir(), 'listener.sock')]
+        if events:
+            argv += ['--enable-events']
         argv += ['--enable-web-server', '--enable-static-server', '--static-server-dir', c07.static_dir(), '--enable-reverse-proxy']
         _F[key] = K.make_flags(argv, plugins=[c07.route_plugin(), c04._reverse_plugin()])
     return _F[key]
@@ -69,6 +71,8 @@ def client_for(c: Dict[str, Any]) -> K.Peer:
             line = b'GET ' + path + b' HTTP/1.1\r\nHost: localhost\r\n'
         if body:
             line += b'Content-Length: %d\r\n' % len(body)
+        if c.get('obs_text'):
+            line += b'X-Note: caf\xe9 na\xefve\r\n'
         raw = line + b'\r\n' + body
         reqs.append((raw, [x for x in q.get('cuts', []) if 0 < x < len(raw)]))
     return ReactiveClient('client', reqs)
@@ -76,7 +80,7 @@ def client_for(c: Dict[str, Any]) -> K.Peer:
 
 def run_mode(c: Dict[str, Any], mode: str) -> Dict[str, Any]:
     listener = c.get('listener', 'tcp')
-    w = K.World(flags_for(mode, listener != 'tcp'), max_iters=60000, settle=6)
+    w = K.World(flags_for(mode, listener != 'tcp', bool(c.get('events'))), max_iters=60000, settle=6)
     client = client_for(c)
     if listener == 'unix':
         w.add_client(client, addr='')       # accept() on a unix socket reports an empty peer address
@@ -168,7 +172,8 @@ def replay(case: Dict[str, Any]) -> List[Dict[str, Any]]:
 def cases(draw: Any) -> Dict[str, Any]:
     role = draw(st.sampled_from(['forward', 'forward', 'tunnel', 'web', 'reverse', 'bytes']))
     c: Dict[str, Any] = {'role': role, 'schedule': draw(st.lists(st.integers(0, 3), max_size=30)),
-                         'listener': draw(st.sampled_from(['tcp', 'tcp', 'tcp', 'unix', 'unix+tcp']))}
+                         'listener': draw(st.sampled_from(['tcp', 'tcp', 'tcp', 'unix', 'unix+tcp'])),
+                         'events': draw(st.integers(0, 3)) == 0, 'obs_text': draw(st.integers(0, 3)) == 0}
     sizes = st.sampled_from([0, 1, 20, 300, 5000, 70000, 300000])
     if role == 'bytes':
         ic = draw(c06.input_cases(draw(st.sampled_from(['random', 'mutated', 'mutated']))))
@@ -227,7 +232,7 @@ def run_shard(spec: Dict[str, Any], seed: int, acc: Any) -> None:
             vs, info = evaluate(c)
             if info.get('inconclusive'):
                 acc.dontcare += 1
-            acc.case(c, info['moved'] >= 1024 or info['nreq'] >= 2 or info['error_path'], labels=('role:' + c['role'], 'ending:' + c['ending'], 'listener:' + c.get('listener', 'tcp')))
+            acc.case(c, info['moved'] >= 1024 or info['nreq'] >= 2 or info['error_path'], labels=('role:' + c['role'], 'ending:' + c['ending'], 'listener:' + c.get('listener', 'tcp')) + (('events-enabled',) if c.get('events') else ()))
             acc.count(2)
             acc.size('max_bytes_moved', info['moved'])
             return vs
